@@ -97,7 +97,7 @@ NEEDS = {
 
 def main():
     conf = {}
-    for f in sorted(glob.glob(os.path.join(VERIF, ".build", "confirm_results*.json"))):
+    for f in sorted(glob.glob(os.path.join(VERIF, ".build", "confirm_results*.json")), key=os.path.getmtime):
         for k, v in json.load(open(f)).items():
             if k not in conf or v.get("confirmed") or not conf[k].get("tests"):
                 conf[k] = v
